@@ -118,11 +118,15 @@ def judge(prog: Program, ref: Any, run: dict[str, Any], info: dict[str, Any]) ->
         it0, cleared = producer_state(e, P, idx)
         return it0 >= 0 and not cleared and not (t.get("once") and it0 > 0)
 
+    held: dict[tuple[str, str], list[tuple[int, Any]]] = {}    # (stage id, key) -> [(arm, value seen)]
     for e in h.ledger:
         sref = e["stage_ref"]
         if sref in prog.stages:
             anc = prog.ancestors(sref)
             ctx = e["ctx"]
+            for k_ in SCALAR_KEYS:
+                if ctx.get(k_) is not None:
+                    held.setdefault((e["stage_id"], k_), []).append((int(e.get("arm") or 0), ctx.get(k_)))
             own = prog.stages[sref].get("ctx") or {}
             # re-arm clears outputs: only producers that completed since the last re-arm of *their* stage count
             for k in SCALAR_KEYS:
@@ -158,7 +162,16 @@ def judge(prog: Program, ref: Any, run: dict[str, Any], info: dict[str, Any]) ->
                 producers = [a for a in anc if k in prod_specs.get(a, {}) and any(produces_at(e, a, i, k) for i in prod_specs[a][k])]
                 maximal = [a for a in producers if not any(a in prog.ancestors(b) for b in producers if b != a)]
                 if maximal and P not in maximal and not ((cur >= 0 and it < cur) or (cleared and it <= cur)):   # a stale value is reported as such above
-                    problems.append(("farther-ancestor-wins", f"{e['key']} sees {k} from {P} although nearer producer(s) {sorted(maximal)} exist", "not-nearest"))
+                    # the same "baked" defect in another guise: the stage held exactly this value in an earlier run of
+                    # itself (then legitimately: the nearer producer had been skipped / had not produced yet); planning
+                    # persisted it into the stage's own context, where it now beats the nearer producer's fresh value
+                    held_before = any(a < int(e.get("arm") or 0) and vv == v for a, vv in held.get((e["stage_id"], k), []))
+                    if held_before:
+                        problems.append(("stale-iteration-value", f"{e['key']} sees {k}={v!r} from {P} although nearer producer(s) {sorted(maximal)} "
+                                         f"have produced it since (the stage was started before: value carried over in its own context)",
+                                         "stale-iteration:baked-farther"))
+                    else:
+                        problems.append(("farther-ancestor-wins", f"{e['key']} sees {k} from {P} although nearer producer(s) {sorted(maximal)} exist", "not-nearest"))
             # every key produced by a completed ancestor is present
             for a in sorted(anc):
                 for k, idxs in prod_specs.get(a, {}).items():
